@@ -68,6 +68,9 @@ impl PostConversionLinter for BuiltInLinter {
                 }
                 Ok(())
             }
+            Expression::Property(left, _, _) => {
+                self.visit_expression(&left.as_ref().clone().at_pos(pos))
+            }
             _ => Ok(()),
         }
     }
